@@ -116,6 +116,15 @@ def immediate_read_protocol(ctx):
     outs = Interp(idx).explore(once3)
     got = {normalise(outcome_text(o)) for o in outs}
     ctx.check("the immediate's copy-assignment consumes the raw pure", got == {'SETL("s", s)'}, 'SETL("s", s)', str(sorted(got)), fn_where(idx, fa))
+    # the IL variable of an immediate carries the immediate's own letter, case preserved (#u and #U are two operands)
+    fv = idx.resolve_method("Immediate", "vm_id")
+    ctx.need(fv is not None, "Immediate.vm_id not found")
+    names = {}
+    for letter in ("s", "S", "u", "U", "r", "R"):
+        outs = Interp(idx).explore(lambda i, letter=letter: i.call_function(fv, [], self_obj=AObj("Immediate", {"name": letter, "isa_name": letter, "reads": 0}, label="self")))
+        names[letter] = sorted({to_text(o.value) if o.kind == "return" else "RAISE" for o in outs})
+    ok = all(v == [f'"{k}"'] for k, v in names.items())
+    ctx.check("immediates of different letters (and cases) have different IL variables", ok, "vm_id() == the quoted letter", str(names), fn_where(idx, fv))
 
 
 def external_parameter_checks(ctx):
